@@ -172,6 +172,21 @@ def run(ck):
     ck.require_fact("U6.ok-only-on-helper-okay", ck.flow(hr), is_cred_set("Ok"), okay, True, "credentials(Auth::Ok)",
                     why="(a helper crash or a garbage reply line would authenticate the claimed user and cache the credentials as valid)")
 
+    ck.rule("U9 a helper verdict is applied to the credentials it was computed for: the cached Auth::Basic::User is shared by every request naming that user and "
+            "updateCached() replaces its passwd (state Unchecked, a second lookup starts) while an earlier lookup is still in flight; HandleReply must therefore mark the "
+            "record Ok only after comparing the password the finished lookup was submitted with against the record's current passwd (some established test that "
+            "mentions Auth::Basic::User::passwd). Without it the OK for the right password authorises the wrong one that has replaced it, releases the requests "
+            "queued behind it as authenticated, and is cached until the second verdict arrives")
+    hfl9 = ck.flow(hr)
+    for st in ck.sites(hfl9, is_cred_set("Ok"), "credentials(Auth::Ok)", 1):
+        bound = any(fc[0] in ("A", "H") and any(n.get("k") == "mem" and n.get("m", "").endswith("::passwd") for n in E.walk(hfl9.trees[fc[1]])) for fc in st.facts)
+        if bound:
+            ck.ok("U9.verdict-bound-to-password", st.where(), "HandleReply: Ok only after a test on the record's passwd")
+        else:
+            ck.violation("U9.verdict-bound-to-password", "U9|HandleReply|verdict-not-bound-to-password", st.where(), "Auth::Basic::UserRequest::HandleReply marks the shared user "
+                         "record Ok without any test on its current passwd: a verdict computed for the password that was in the record when the lookup started is applied to "
+                         "whatever password updateCached() has put there since", hfl9.witness(st))
+
     ck.rule("U7 Basic credentials cache: Auth::Basic::User::updateCached, when the newly presented password differs from the cached one (strcmp != 0), resets the cached "
             "user's state to Auth::Unchecked on every path -- also while a helper lookup for the *old* password is pending, because startHelperLookup() queues requests "
             "for a Pending user onto the in-flight lookup assuming identical credentials")
